@@ -75,7 +75,7 @@ Point3 = collections.namedtuple('Point3', 'x y z')
 NT = collections.namedtuple('NT', 'a b')
 
 import fractions
-NS = {'vlib': __import__('vlib'), 'fractions': fractions, 'datetime': dt, 'collections': collections, 'uuid': uuid, 'types': types, 'functools': functools,
+NS = {'vlib': __import__('vlib'), 'fractions': fractions, 'time': __import__('time'), 'os': __import__('os'), 'posix': __import__('posix'), 'datetime': dt, 'collections': collections, 'uuid': uuid, 'types': types, 'functools': functools,
       'pathlib': pathlib, 'pytz': pytz, 'enum': enum, 'mappingproxy': types.MappingProxyType}
 
 TD = dt.timedelta
@@ -189,6 +189,17 @@ def gen_instances(rng, quick):
         if z is None or not isinstance(z, pytz.tzinfo.DstTzInfo):
             yield 'time', dt.time(0, 0, 0, 5, tzinfo=z, fold=1)
             yield 'time', dt.time(7, 0, 9, tzinfo=z)
+    import os as _os
+    import sys as _sys
+    import time as _time
+    for ss in (_time.gmtime(0), _time.gmtime(86400 * 365 * 30 + 12345), _time.struct_time((2020, 2, 29, 23, 59, 59, 5, 60, 1)), _os.stat_result(tuple(range(10))),
+               _os.stat_result(tuple(range(10, 29))), _os.times_result((1.5, 2.5, 0.0, 0.0, 1e6)), _os.terminal_size((80, 24))):
+        yield 'struct sequence', ss
+    for tv in (type(None), int, dict, functools.partial, collections.OrderedDict, dt.datetime, len, sorted, print, [].append, 'x'.join, {}.get, _os.getcwd, functools.reduce,
+               lambda x: x, gen_instances, skey, Color, Point3, ValueError, type, object, NotImplemented, complex(1, 2), range(5), slice(1, None, 2), memoryview(b'ab'), bytearray(b'xy'),
+               __import__('decimal').Decimal('1.5'), __import__('fractions').Fraction(1, 3), object(), iter([1]), (x for x in ()), _sys.flags, _sys.version_info, _sys.float_info, _os.environ.__class__,
+               dt.timezone, pytz.utc.__class__, Color.RED.__class__, enum.Enum, types.SimpleNamespace, pathlib.PurePath):
+        yield 'totality only', tv
     yield 'partial', functools.partial(int)
     yield 'partial', functools.partial(int, '101', base=2)
     yield 'partial', functools.partial(sorted, [3, 1, 2], reverse=True)
@@ -365,6 +376,12 @@ def check_one(sh, tname, inst, ctx, cfg):
         else:
             sh.violation('unexpected-warning:' + tname, ws[0][1][:300], case)
         return text
+    if tname == 'totality only':
+        # classes, functions, iterators, ... : the bundled printers (type / function / built-in function printers, repr fallback)
+        # must not fail; the text need not be evaluable
+        sh.counters['totality-only values printed without failure'] += 1
+        sh.see('types verified', tname)
+        return text
     try:
         got = pick(ctx, V.evaluate(text, NS))
     except Exception as e:
@@ -382,6 +399,17 @@ def check_one(sh, tname, inst, ctx, cfg):
         return text
     if not same:
         sh.violation('not-equal:' + tname, 'reconstructed %r from %r; key %r vs %r' % (got, text[:300], skey(got), skey(inst)), case)
+        return text
+    # idempotence: the reconstructed object prints to a text that evaluates to an equal object again
+    try:
+        text2, ws2 = M.pp(place(ctx, got), **cfg)
+        got2 = pick(ctx, V.evaluate(text2, NS))
+        if ws2 or skey(got2) != skey(inst):
+            sh.violation('reprint-of-reconstructed-object:' + tname, 'printing the reconstructed object gives %r (warnings %r)' % (text2[:300], [w[1][:80] for w in ws2]), case)
+            return text
+        sh.counters['reconstructed objects re-printed and re-evaluated'] += 1
+    except Exception as e:
+        sh.violation('reprint-of-reconstructed-object:' + tname, 'printing / evaluating the reconstructed object failed: %r' % (e,), case)
         return text
     sh.counters['instances reconstructed'] += 1
     sh.see('types verified', tname)
@@ -423,7 +451,7 @@ def run_shard(sh):
 
 def finalize(m):
     want = {'datetime', 'date', 'time', 'timedelta', 'timezone', 'pytz zone', 'OrderedDict', 'defaultdict', 'deque', 'Counter', 'ChainMap', 'mappingproxy',
-            'UUID', 'Enum member', 'SimpleNamespace', 'namedtuple', 'partial', 'exception', 'pure path'}
+            'UUID', 'Enum member', 'SimpleNamespace', 'namedtuple', 'partial', 'exception', 'pure path', 'struct sequence', 'totality only'}
     seen = m.sets.get('types verified', set())
     if want - seen:
         m.inconclusive.append('types with no verified instance: %s' % sorted(want - seen))
